@@ -430,7 +430,9 @@ def check_C19(tier, seed, t0):
 
 def check_C06(tier, seed, t0):
     rng = random.Random(6000 + seed)
-    descs = P.history_descs(rng, n_of(tier, 150, 1500), types=types_for(tier))
+    descs = P.history_descs(rng, n_of(tier, 130, 1500), types=types_for(tier))
+    descs += P.history_descs_geig(rng, n_of(tier, 25, 300), types=("d",))
+    descs += P.eigvec_start_descs(rng, n_of(tier, 12, 100), types=types_for(tier))
     if tier == "thorough":
         descs += P.history_descs(rng, 0, exhaustive_for=["sym", "gen", "gencs"], maxlen=3)
     own = ["SameKeySameDigest", "OperatorUnchanged", "I:InitMakesFresh"]
@@ -442,9 +444,9 @@ def check_C06(tier, seed, t0):
 def check_C14(tier, seed, t0):
     rng = random.Random(7000 + seed)
     if tier == "quick":
-        descs = P.fault_descs(rng, 12, stride=3, rep=1) + P.fault_descs(rng, 6, stride=7, rep=3)
+        descs = P.fault_descs(rng, 12, stride=3, rep=1) + P.fault_descs(rng, 6, stride=7, rep=3) + P.fault_descs_extra(rng, True)
     else:
-        descs = P.fault_descs(rng, 60, types=types_for(tier), stride=1) + P.fault_descs(rng, 24, stride=1, pairs=True) + P.fault_descs(rng, 12, stride=5, rep=3)
+        descs = P.fault_descs(rng, 60, types=types_for(tier), stride=1) + P.fault_descs(rng, 24, stride=1, pairs=True) + P.fault_descs(rng, 12, stride=5, rep=3) + P.fault_descs_extra(rng, False)
     own = ["SameException", "FaultCountMatches", "SameKeySameDigest", "G:OpThrows", "NoLeak", "I:InitMakesFresh", "OperatorUnchanged", "Abort",
            "UndocumentedException", "HeapOverrun", "EndedMidCall"]
     models = [("MC_IR.tla", "IR_quick.cfg" if tier == "quick" else "IR_design.cfg", 8)]
